@@ -85,7 +85,8 @@ var compactForms = map[string]string{
 
 // canonName: lower-cased long form of a field name.
 func canonName(n string) string {
-	l := strings.ToLower(n)
+	// HCOLON = *( SP / HTAB ) ":" SWS (RFC 3261 25.1): blanks between the name and the colon are not part of the name
+	l := strings.ToLower(strings.TrimRight(n, " \t"))
 	if c, ok := compactForms[l]; ok {
 		return c
 	}
